@@ -294,8 +294,17 @@ def translate(repo):
             elif isinstance(st, ast.Raise) or (not isinstance(st, ast.If) and any(isinstance(x, ast.Raise) for x in ast.walk(st))):
                 raise Unrecognised("_dispatch_request raises: " + s)
             elif "_send" in s:
-                if s != "self._send(consts.MSG_EXCEPTION, seq, self._box_exc(t, v, tb))" or st is not hb[-1]:
+                direct = s == "self._send(consts.MSG_EXCEPTION, seq, self._box_exc(t, v, tb))"
+                helper = s == "self._send_exc(seq, t, v, tb)"
+                if not (direct or helper) or st is not hb[-1]:
                     raise Unrecognised("_dispatch_request send: " + s)
+                if helper:
+                    # the helper sends exactly the boxed exception first (its fallback reports the encoding failure instead)
+                    hf = find_func(conn, "_send_exc")
+                    hs = [x for x in ast.walk(hf) if isinstance(x, ast.Expr) and "_send(" in u(x)]
+                    if not hs or u(hs[0]) != "self._send(consts.MSG_EXCEPTION, seq, self._box_exc(t, v, tb))" \
+                            or any(u(x) != "self._send(consts.MSG_EXCEPTION, seq, self._box_exc(t, v, tb))" for x in hs):
+                        raise Unrecognised("_send_exc: " + u(hf))
                 sends += 1
         if sends != 1:
             raise Unrecognised("_dispatch_request does not send the boxed exception exactly once")
